@@ -131,6 +131,25 @@ func judge(v sysex.Manufacturer, corrupt bool) {
 		report("parse:result-shared:"+kind, v, b2, "after modifying a parsed value, building and parsing the same message again gives something else")
 		return
 	}
+	// the payload is changed in place (same slice, same length) and the value
+	// built again: the new bytes must carry the new payload and its checksum
+	if !v.InfoRequest && len(v.SendingData) > 0 {
+		own := append([]byte(nil), v.SendingData...)
+		w := v
+		w.SendingData = own
+		_ = w.SysEx()
+		own[len(own)/2] = (own[len(own)/2] + 1) & 0x7F
+		b3 := w.SysEx()
+		sum3 := 0
+		for _, x := range b3[5 : len(b3)-1] {
+			sum3 += int(x)
+		}
+		p3, err3 := sysex.Parse(b3)
+		if sum3%128 != 0 || err3 != nil || !bytes.Equal(p3.SendingData, own) {
+			report("build:stale-after-payload-edit:"+kind, w, b3, fmt.Sprintf("after the payload was changed in place, SysEx() gives bytes whose sum is %d mod 128, parse error %v", sum3%128, err3))
+			return
+		}
+	}
 	if !corrupt {
 		return
 	}
